@@ -287,9 +287,9 @@ func ruleMapAssign(c *chk.Ctx) {
 		// ServiceMap: first-separator split
 		var split *ssa.Call
 		idiom := ""
-		ir.Instrs(f, func(ins ssa.Instruction) {
+		c.P.ExtInstrs(f, func(ins ssa.Instruction) {
 			call, ok := ins.(*ssa.Call)
-			if !ok || len(call.Call.Args) < 2 || call.Call.Args[0] != ssa.Value(method) {
+			if !ok || len(call.Call.Args) < 2 || (call.Call.Args[0] != ssa.Value(method) && c.P.Canon(call.Call.Args[0]) != ssa.Value(method)) {
 				return
 			}
 			sep, _ := constString(call.Call.Args[1])
@@ -327,21 +327,45 @@ func ruleMapAssign(c *chk.Ctx) {
 			}
 			if call, ok := v.(*ssa.Call); ok && call.Call.IsInvoke() && call.Call.Method.Name() == "Assign" {
 				// the receiver is a commaok lookup hit, the name derives from the split
-				arg := call.Call.Args[1]
-				for _, src := range c.P.SourcesStop(arg, func(x ssa.Value) bool { return x == ssa.Value(split) }) {
-					if src == ssa.Value(split) {
-						fwd = true
-					}
-				}
-				if ir.IsExtractOf(arg, split, 1) {
-					fwd = true // strings.Cut: the part after the first separator
-				}
-				if u, ok := arg.(*ssa.UnOp); ok {
-					if ia, ok := u.X.(*ssa.IndexAddr); ok && ia.X == ssa.Value(split) {
-						if k, _ := ir.ConstInt(ia.Index); k == 1 {
-							fwd = true
+				args := []ssa.Value{call.Call.Args[1]}
+				// (the two parts may come back from a private splitting helper as fields of a
+				// small struct: then the field's value at each of the helper's returns)
+				if hc, ri, fk, isRes := ir.StructFieldOrigin(ir.NormCell(call.Call.Args[1])); isRes {
+					if h := hc.Call.StaticCallee(); h != nil && c.P.InRepo[h] && !ir.Exported(h) {
+						if fvs, known := ir.ResultFieldVals(h, ri, fk); known {
+							args = nil
+							for _, fv := range fvs {
+								if !fv.Zero {
+									args = append(args, fv.Val)
+								}
+							}
 						}
 					}
+				}
+				nFwd := 0
+				for _, arg := range args {
+					one := false
+					for _, src := range c.P.SourcesStop(arg, func(x ssa.Value) bool { return x == ssa.Value(split) }) {
+						if src == ssa.Value(split) {
+							one = true
+						}
+					}
+					if ir.IsExtractOf(arg, split, 1) {
+						one = true // strings.Cut: the part after the first separator
+					}
+					if u, ok := arg.(*ssa.UnOp); ok {
+						if ia, ok := u.X.(*ssa.IndexAddr); ok && ia.X == ssa.Value(split) {
+							if k, _ := ir.ConstInt(ia.Index); k == 1 {
+								one = true
+							}
+						}
+					}
+					if one {
+						nFwd++
+					}
+				}
+				if len(args) > 0 && nFwd == len(args) {
+					fwd = true
 				}
 			}
 		}
@@ -360,15 +384,17 @@ func ruleSortedNames(c *chk.Ctx) {
 			continue
 		}
 		n++
-		for _, r := range ir.Returns(f) {
+		// (a `return h()` of a private helper — a name list's own "sorted" method — stands for
+		// the helper's returns; the list may live in a field, read once to sort and once to return)
+		for _, r := range effectiveReturns(c, f, 0) {
 			v := ir.ReturnResult(r, 0)
 			sorted := false
-			ir.Instrs(f, func(ins ssa.Instruction) {
+			ir.Instrs(r.Parent(), func(ins ssa.Instruction) {
 				call, ok := ins.(*ssa.Call)
 				if !ok || !ir.IsCallTo(&call.Call, "sort.Strings", "slices.Sort") {
 					return
 				}
-				if call.Call.Args[0] == v && ir.InstrDominates(call, r) {
+				if (call.Call.Args[0] == v || ir.SameFieldLoad(call.Call.Args[0], v)) && ir.InstrDominates(call, r) {
 					sorted = true
 				}
 			})
